@@ -62,7 +62,8 @@ EOps == {<<"attr", K1, v>> : v \in {<<49>>, <<34>>, <<60>>}} \cup {<<"attr", K2,
 ENames == {NA, <<97, 98, 99>>}
 EFins == {<<"empty">>, <<"text", <<60>>>>, <<"inner", <<38>>>>, <<"cdata", <<99>>>>, <<"pi", <<112>>>>}
 EDepths == {0, 1, 2}
-ElemIndents == Indents \cup {NoIndent}
+\* (one indent wider than the 128 bytes of the indent cache: `additional` must grow it at depth 1 already)
+ElemIndents == Indents \cup {NoIndent, [on |-> TRUE, ch |-> 32, size |-> 131]}
 \* the events around and of the element: d Start events, the element, d End events
 ElemEvs(ops, name, fin, d, ind) ==
     LET cur == IF ind.on THEN d * ind.size ELSE 0
